@@ -357,7 +357,7 @@ fn eval_builtin_incstr(
                 funcname,
                 start,
                 bigint_size / bits_per_char),
-            query.args[1].span);
+            query.args.get(1).map_or(query.span, |a| a.span));
         return Err(());
     }
 
@@ -370,7 +370,7 @@ fn eval_builtin_incstr(
                 start,
                 end - start,
                 bigint_size / bits_per_char),
-            query.args[2].span);
+            query.args.get(2).map_or(query.span, |a| a.span));
         return Err(());
     }
 
